@@ -29,14 +29,22 @@ Print Assumptions C05_exact_on_domain_partial.
    truncation / round-half-even of the exact rational quotient, the remainder has the value
    number - quotient * divisor, mod / rem / the bitwise results have the mathematical value. The
    representation is not canonical there (results are always bignum / ratio objects: known findings),
-   and the operands are untouched except by round (known finding: absolute values in place). *)
+   and the operands are untouched. *)
 Theorem C05_value_exact_on_value_domain : forall o args,
   value_domain o args = true ->
   exists so, s_out o args = Some so /\
     res_same_value (o_res so) (o_res (m_op o args)) = true /\
-    (o <> ORound Round -> o_args (m_op o args) = args).
+    o_args (m_op o args) = args.
 Proof. exact value_exact. Qed.
 Print Assumptions C05_value_exact_on_value_domain.
+
+(* (2b) "never alter their operands", for EVERY modelled operation and EVERY operand list (no guard): the
+   operands after the call are the operands before it. (True of the model since the repairs
+   repo_fixes/C05-1..5: -, /, 1+, 1-, round allocate their math/big results instead of writing them into an
+   operand; the correspondence run compares the operand variables re-read after every call.) *)
+Theorem C05_operands_never_altered : forall o args, o_args (m_op o args) = args.
+Proof. exact operands_untouched. Qed.
+Print Assumptions C05_operands_never_altered.
 
 (* (3) exactly one of <, =, > holds, and it is the one of the exact values *)
 Theorem C05_trichotomy : forall a b, canonical a = true -> canonical b = true -> inexact_pair a b = false ->
